@@ -89,6 +89,27 @@ fn worker(args: &[String]) -> Result<i32, String> {
     let mut run = offset;
     let mut n = 0u64;
     let mut stop_at: Option<u64> = None;
+    // Safety net only (never a source of decisions): if one run is still executing after 120 s of wall clock,
+    // report it as hung and leave; the parent turns that into a replayable C07-style finding for that run.
+    let current = std::sync::Arc::new(std::sync::atomic::AtomicU64::new(u64::MAX));
+    {
+        let current = current.clone();
+        std::thread::spawn(move || {
+            let mut last = u64::MAX;
+            let mut since = Instant::now();
+            loop {
+                std::thread::sleep(std::time::Duration::from_millis(500));
+                let c = current.load(std::sync::atomic::Ordering::SeqCst);
+                if c != last {
+                    last = c;
+                    since = Instant::now();
+                } else if c != u64::MAX && since.elapsed().as_secs() >= 120 {
+                    eprintln!("watchdog: run {c} still executing after 120 s");
+                    std::process::exit(7);
+                }
+            }
+        });
+    }
     while run < total {
         if n % 64 == 0 && stopfile != "-" {
             if let Ok(s) = std::fs::read_to_string(&stopfile) {
@@ -103,6 +124,7 @@ fn worker(args: &[String]) -> Result<i32, String> {
         // B is flushed before the run starts so that a crash is attributable
         writeln!(out, "B {run}").ok();
         out.flush().ok();
+        current.store(run, std::sync::atomic::Ordering::SeqCst);
         let sc = p.gen(run_seed(seed, id, run));
         let e = p.exec(&sc, &mut ctr)?;
         if let Some(d) = &e.discarded {
@@ -125,6 +147,7 @@ fn worker(args: &[String]) -> Result<i32, String> {
         run += stride;
         n += 1;
     }
+    current.store(u64::MAX, std::sync::atomic::Ordering::SeqCst);
     for (k, v) in &ctr {
         writeln!(out, "C {k}\t{v}").ok();
     }
@@ -611,6 +634,18 @@ fn replay_cmd(args: &[String]) -> Result<i32, String> {
     let p = prop(&id)?;
     crate::quiet_panics();
     let sc = Scenario::from_j(j.get("scenario").ok_or("no scenario")?)?;
+    {
+        // a scenario recorded because a worker hung must not hang the replay: wall-clock safety net
+        let id = id.clone();
+        let path = path.clone();
+        std::thread::spawn(move || {
+            std::thread::sleep(std::time::Duration::from_secs(120));
+            println!("REPLAYED class=worker_process_died");
+            println!("the scenario was still executing after 120 s");
+            println!("VIOLATION property={id} replay={path}");
+            std::process::exit(1);
+        });
+    }
     match class_of(p.as_ref(), &sc)? {
         Some((class, detail)) => {
             println!("REPLAYED class={class}");
